@@ -4,6 +4,8 @@ use serde_json::Value;
 pub mod c01;
 pub mod c02;
 pub mod c03;
+pub mod c04;
+pub mod c05;
 pub mod c06;
 pub mod c07;
 pub mod c08;
@@ -18,6 +20,7 @@ pub mod c16;
 pub mod c17;
 pub mod c18;
 pub mod c19;
+pub mod c20;
 
 pub type RunFn = fn(&Run);
 pub type ReplayFn = fn(&Run, &str, &Value) -> Option<bool>;
@@ -27,6 +30,8 @@ pub const REGISTRY: &[(&str, &str, RunFn, ReplayFn)] = &[
     ("C01", "exploration", c01::run, c01::replay),
     ("C02", "exploration", c02::run, c02::replay),
     ("C03", "exploration", c03::run, c03::replay),
+    ("C04", "exploration", c04::run, c04::replay),
+    ("C05", "exploration", c05::run, c05::replay),
     ("C06", "fault_enumeration", c06::run, c06::replay),
     ("C07", "fault_enumeration", c07::run, c07::replay),
     ("C08", "exploration", c08::run, c08::replay),
@@ -41,4 +46,5 @@ pub const REGISTRY: &[(&str, &str, RunFn, ReplayFn)] = &[
     ("C17", "exploration", c17::run, c17::replay),
     ("C18", "exploration", c18::run, c18::replay),
     ("C19", "exploration", c19::run, c19::replay),
+    ("C20", "exploration", c20::run, c20::replay),
 ];
